@@ -30,10 +30,10 @@ class Raised(Exception):
 
 SAFE_BUILTINS = {
     "len": len, "range": range, "enumerate": enumerate, "str": str, "int": int, "list": list, "tuple": tuple, "sum": sum, "max": max, "min": min,
-    "dedent": textwrap.dedent, "zip": zip, "sorted": sorted, "repr": repr, "bool": bool, "abs": abs, "reversed": reversed, "ord": ord, "chr": chr, "set": set, "frozenset": frozenset, "bytes": bytes, "bytearray": bytearray, "divmod": divmod,
+    "dedent": textwrap.dedent, "zip": zip, "sorted": sorted, "repr": repr, "bool": bool, "abs": abs, "reversed": reversed, "ord": ord, "chr": chr, "set": set, "frozenset": frozenset, "any": any, "all": all, "bytes": bytes, "bytearray": bytearray, "divmod": divmod,
 }
 SAFE_METHODS = {
-    str: {"encode", "join", "strip", "lstrip", "rstrip", "format", "startswith", "endswith", "split", "replace", "upper", "lower", "partition"},
+    str: {"encode", "isdigit", "isalpha", "isalnum", "isnumeric", "isidentifier", "isspace", "join", "strip", "lstrip", "rstrip", "format", "startswith", "endswith", "split", "replace", "upper", "lower", "partition"},
     int: {"bit_length", "to_bytes"},
     list: {"index", "count", "copy", "append", "extend", "insert", "pop"},
     set: {"union", "intersection", "difference", "issubset", "issuperset", "copy"},
